@@ -373,7 +373,7 @@ pub fn value_pool() -> Vec<Value> {
     for s in ["", "a", "it's", "back\\slash", "q\"q", "new\nline\ttab", "é😀", "100%_", "ends with \\", "?", "$1", "'; DROP TABLE t1; --"] {
         p.push(s.to_string().into());
     }
-    for c in ['a', '\'', '\\', 'é', '😀', '\n'] {
+    for c in ['a', '\'', '\\', 'é', '😀', '\n', '\u{1a}', '"'] {
         p.push(c.into());
     }
     for b in [vec![], vec![0u8], vec![0x27, 0x5c, 0xff], b"abc".to_vec()] {
@@ -442,6 +442,7 @@ fn value_sweep(rep: &Report) -> u64 {
             ("update-value", Box::new(|d| entry_all(Query::update().table(a("t1")).value(a("s"), Expr::val(v.clone())).and_where(Expr::col(a("id")).eq(2)), d))),
             ("case-then", Box::new(|d| entry_all(Query::select().expr(CaseStatement::new().case(Expr::col(a("a")).gt(1), Expr::val(v.clone())).finally(Expr::val(v.clone()))).from(a("t1")), d))),
             ("divide-by-two", Box::new(|d| entry_all(Query::select().expr(Expr::val(v.clone()).div(2)), d))),
+            ("subtract", Box::new(|d| entry_all(Query::select().expr(Expr::col(a("a")).sub(Expr::val(v.clone()))).expr(Expr::val(v.clone()).sub(Expr::val(v.clone()))).from(a("t1")), d))),
             ("from-values", Box::new(|d| entry_all(Query::select().column(Asterisk).from_values([(v.clone(), 1i32)], a("x")), d))),
             ("in-tuples", Box::new(|d| entry_all(Query::select().column(a("a")).from(a("t1")).and_where(Expr::tuple([Expr::col(a("s")).into(), Expr::col(a("a")).into()]).in_tuples([(v.clone(), 1i32), (v.clone(), 2i32)])), d))),
             ("function-table-argument", Box::new(|d| entry_all(Query::select().column(Asterisk).from_function(Func::cust(a("gen")).arg(v.clone()).arg(1), a("g")), d))),
